@@ -86,6 +86,25 @@ inductive Warning
   | inverseSpouses (fam husb wife : Nat)
 deriving DecidableEq, Repr, Inhabited
 
+/-! ### from DATE values to `DateV` (used by the driver on every DATE string) -/
+
+/-- what `NewDateRangeWithString` made of the value, sorted into the model's three shapes -/
+def classifyDate (r : DateRange) : DateV :=
+  let s := r.start
+  let e := r.end_
+  if s == e && !s.parseError && s.constraint == .exact && s.day != 0 && s.month != 0 &&
+      decide (1 ≤ s.year) && decide (s.year ≤ 9999) then .ok ⟨s.day, s.month, s.year⟩
+  else if s.parseError && e.parseError && s.isZero && e.isZero then .bad 0
+  else .gen 0 s e
+
+def relabelDate (n : Nat) : DateV → DateV
+  | .ok d => .ok d
+  | .bad _ => .bad n
+  | .gen _ s e => .gen n s e
+
+/-- the DATE node at position `l` of the document with value `v` -/
+def dateOf (l : Nat) (v : Str) : DateV := relabelDate l (classifyDate (parseDateRange v))
+
 /-! ### views -/
 
 def indis (d : Doc) : List Indi := d.filterMap fun | .indi i => some i | .fam _ => none
@@ -212,7 +231,28 @@ def dateSub (a b : Int) : Int := durAbs (timeSub a b)
 
 /-! ### family checks -/
 
-def childrenBornBeforeParents (d : Doc) (f : Fam) : List Warning :=
+/-- `IndividualNodePairs.Has` (pairs are only ever stored for resolved individuals) -/
+def pairsHas (pairs : List (Nat × Nat)) (a b : Nat) : Bool :=
+  pairs.any fun p => (p.1 == a && p.2 == b) || (p.1 == b && p.2 == a)
+
+/-- `Warnings.oncePerPair` (warnings.go) with its two pair sets: the first ChildBornBeforeParent
+    warning of each (parent, child) and the first SiblingsBornTooClose warning of each unordered
+    pair of siblings are kept; everything else, and the order, is left alone.  People are compared
+    with `IndividualNode.Is`, i.e. by pointer. -/
+def oncePerPairGo : List Warning → List (Nat × Nat) → List (Nat × Nat) → List Warning
+  | [], _, _ => []
+  | .childBornBeforeParent f p c :: ws, pc, sb =>
+    if pc.contains (p, c) then oncePerPairGo ws pc sb
+    else .childBornBeforeParent f p c :: oncePerPairGo ws (pc ++ [(p, c)]) sb
+  | .siblingsBornTooClose f a b :: ws, pc, sb =>
+    if pairsHas sb a b then oncePerPairGo ws pc sb
+    else .siblingsBornTooClose f a b :: oncePerPairGo ws pc (sb ++ [(a, b)])
+  | w :: ws, pc, sb => w :: oncePerPairGo ws pc sb
+
+def oncePerPair (ws : List Warning) : List Warning := oncePerPairGo ws [] []
+
+/-- the loop of `childrenBornBeforeParentsWarnings`, before its `oncePerPair` -/
+def childrenBornBeforeParentsRaw (d : Doc) (f : Fam) : List Warning :=
   let fb := birthOf (f.husb.bind (indiOf d))
   let mb := birthOf (f.wife.bind (indiOf d))
   f.chil.flatMap fun c =>
@@ -220,6 +260,10 @@ def childrenBornBeforeParents (d : Doc) (f : Fam) : List Warning :=
     if !validO cb then [] else
       (if validO fb && yearsLtV cb fb then [Warning.childBornBeforeParent f.ptr (f.husb.getD 0) c] else []) ++
       (if validO mb && yearsLtV cb mb then [Warning.childBornBeforeParent f.ptr (f.wife.getD 0) c] else [])
+
+/-- `childrenBornBeforeParentsWarnings`: a child that is listed twice is still one child -/
+def childrenBornBeforeParents (d : Doc) (f : Fam) : List Warning :=
+  oncePerPair (childrenBornBeforeParentsRaw d f)
 
 def nineMonths : Int := Generated.siblingMaxDays * nsPerDay
 def twoDays : Int := Generated.siblingMinDays * nsPerDay
@@ -229,10 +273,6 @@ def sameIndi (a b : Option Indi) : Bool :=
   match a, b with
   | some x, some y => x.ptr == y.ptr
   | _, _ => false
-
-/-- `IndividualNodePairs.Has` (pairs are only ever stored for resolved individuals) -/
-def pairsHas (pairs : List (Nat × Nat)) (a b : Nat) : Bool :=
-  pairs.any fun p => (p.1 == a && p.2 == b) || (p.1 == b && p.2 == a)
 
 /-- `DateNode.Sub` returns an error when either date carries a parse error (an absent date
     does not) -/
@@ -411,7 +451,11 @@ def recWarnings (d : Doc) (now : Date) : Rec → List Warning
   | .indi i => indiOwn i now ++ unparsable false i.ptr i.events
   | .fam f => famOwn d f ++ unparsable true f.ptr f.events
 
-/-- `Document.Warnings()` with today's date as an input -/
-def warnings (d : Doc) (now : Date) : List Warning := d.flatMap (recWarnings d now)
+/-- what the walk of `Document.Warnings()` collects, before the document-level `oncePerPair` -/
+def rawWarnings (d : Doc) (now : Date) : List Warning := d.flatMap (recWarnings d now)
+
+/-- `Document.Warnings()` with today's date as an input: the same two people may be related
+    through more than one family; each pair is reported once -/
+def warnings (d : Doc) (now : Date) : List Warning := oncePerPair (rawWarnings d now)
 
 end Gedcom.Warn
